@@ -178,6 +178,8 @@ def parameter_lists(check, tier):
               "38 / 48 with selectors 5 and 2, empty fields) inside 'a<seq>b\\nc', and the 4- and 5-parameter extended-colour forms complete and "
               "truncated: no exception, ordinary text kept", bound="<= 3 parameters (extended colours <= 5)")
     lists = [()] + [(p,) for p in pool] + list(itertools.product(pool, repeat=2)) + list(itertools.product(pool, repeat=3))
+    lists += [(str(v),) for v in range(0, 301)] + [(str(v), q) for v in range(0, 111) for q in ("0", "1", "31")] + \
+             [(q, str(v)) for v in range(0, 111) for q in ("1", "44")]
     lists += [("38", "2", "10", "20"), ("38", "2", "10", "20", "30"), ("48", "2", "1", "2", "3"), ("1", "38", "5"), ("38", "5", "196", "1"),
               ("48", "5"), ("38",), ("38", "2"), ("0", "48", "2", "9")]
     for ps in lists:
